@@ -74,7 +74,8 @@ def run(tier: str, rep: Report, prefixes=("P12.",), pid=PID):
         pf = str(wd / f"prod-{v}.ndjson")
         prod = Worker(v)
         try:
-            prod.req("jsonw.produce", path=pf, terms=cwterms, sources=[{"id": "basic", "src": "x = 1\ny = [lambda: 0, 2.5]\n"}])
+            prod.req("jsonw.produce", path=pf, terms=cwterms, sources=[{"id": "basic", "src": "x = 1\ny = [lambda: 0, 2.5]\n"}],
+                     ladder=[1, 2, 5, 20, 50, 80, 99, 100, 101, 102, 120, 150], bad=True)
         finally:
             prod.close()
         w = Worker(v)
